@@ -136,7 +136,11 @@ func stubIntrinsic(in *Interp, th *Thread, fn *ssa.Function, a []Value) (Value, 
 		in.ghostOn = a[0].(*Term).op == OpTrue
 		return nil, stDone
 	case "symReleased":
-		p, _ := a[0].(Ptr)
+		v := a[0]
+		if iv, ok := v.(IfaceV); ok {
+			v = iv.v
+		}
+		p, _ := v.(Ptr)
 		return tb.Bool(p.c != nil && p.c.obj != nil && p.c.obj.released), stDone
 	case "symNote":
 		in.note("harness:" + in.strArg(a[0]))
